@@ -1332,4 +1332,13 @@ theorem freq_repaired_instance :
 
 end cex
 
+/-- `rint` stays within half a unit of its argument -/
+theorem rint_near {K : Type} [Field K] [LinearOrder K] [IsStrictOrderedRing K] [FloorRing K] (x : K) :
+    x - 1 / 2 ≤ (rint x : K) ∧ (rint x : K) ≤ x + 1 / 2 := by
+  have h1 := Int.floor_le x
+  have h2 := Int.lt_floor_add_one x
+  unfold rint
+  simp only
+  split_ifs <;> push_cast <;> constructor <;> linarith
+
 end Compmech.EigPost
